@@ -53,6 +53,9 @@ def run(tier, seed):
     reps2, m2, viol2 = vc.rsched_scenarios(PID, "h_run2", b2, sc2, d, workers=4)
     reps += reps2
     viol += viol2
+    rreps, rm, rviol = hc.race_part(PID, d, tier, [("m0", T(2, [1, 2], [2, 1, 7], P=0, K=5, H=6), 2, 2), ("m1", T(3, [7, 0, 1], [7, 2, 1], P=0, K=5, H=6), 3, 1)])
+    reps += rreps
+    viol += rviol
     m = vc.merge_rsched(reps)
     if not viol or all("deadlock" in v["signature"] for v in viol):
         for k in ("cancelled_while_queued", "cancelled_after_processing", "cancelled_extracted_unprocessed",
@@ -69,6 +72,7 @@ def run(tier, seed):
                            "while queued, in a history or in MPI flight, no use of a released buffer, every atomic on a flags word hits an "
                            "allocated buffer) plus E/K (an event annihilated too much or delivered twice changes the committed hashes); "
                            "non-trivial = execution with >= 1 local cancellation")
+    cov["rule"] += ". " + hc.RACE_RULE
     vc.write_evidence(PID, tier, "model_checking", cov,
                       ["releases inside msg_allocator.c itself (msg_allocator_on_gvt) are mirrored from the free_at_gvt calls, not observed",
                        "messages pending beyond the final GVT are legitimately discarded by msg_queue_fini",
@@ -79,5 +83,7 @@ def run(tier, seed):
 
 def replay(path):
     d = vc.fresh_dir(PID + "_replay")
+    if hc.is_race_replay(path):
+        return vc.rsched_replay(hc.build(d, race=True), path)
     ranks = 2 if "/r" in path.split("/")[-1][:2] or os.path.basename(path).startswith("r") else 1
     return vc.rsched_replay(hc.build(d, ranks=ranks), path)
